@@ -75,6 +75,21 @@ def make(rng, tier):
             rmode = rng.choice(["none", "none", "int-big", "int-binding", "list"])
             rmax = None if rmode == "none" else 64 if rmode == "int-big" else rng.choice([1, 2]) if rmode == "int-binding" else [1] + [rng.randint(1, 5) for _ in range(d - 1)] + [1]
             out.append(("%s/d%d/%s/%s/rmax-%s" % (kind, d, "ttm" if ttm else "tt", dtname, rmode), x, eps, rmax))
+    # heavily inflated family: an exactly low-rank tensor stored with ranks 10-40 times larger than a mode can carry (very tall unfoldings),
+    # tight eps: the true ranks must come back
+    for fi in range(3 if tier == "quick" else 12):
+        d = [3, 2, 4][fi % 3]
+        dtname = ["f64", "c128", "f64"][fi % 3]
+        dt = DTYPES[dtname]
+        N = [rng.randint(5, 7) for _ in range(d - 1)] + [4]          # large leading modes keep the inflated rank through the QR sweep; the last mode (4) exceeds the true rank (2): the tall last unfolding is rank deficient
+        base = rand_tt(rng, N, [1] + [2] * (d - 1) + [1], dt)
+        g = tn.Generator().manual_seed(rng.randrange(1 << 30))
+        base = torchtt.TT([tn.randn(c.shape, generator=g, dtype=tn.float64).to(dt) for c in base.cores])
+        x = base
+        for _ in range(19):
+            x = x + base * (1.0 + rng.random())
+        eps = [1e-10, 1e-9, 1e-12][fi % 3]
+        out.append(("inflated20/d%d/tt/%s/rmax-none" % (d, dtname), x, eps, None))
     # scale family: the statement is invariant under x -> c*x; tensors whose overall norm is far below / above 1 (down to below machine
     # epsilon, up to 2^80) with genuine rank > 1 must keep their ranks and relative accuracy
     for d in ([2, 3, 4] if tier == "quick" else [2, 3, 4, 5]):
